@@ -1,8 +1,32 @@
-(* C17 - a retained session behaves like one growing program. Property theorems only (model/Session.v, spec/SemSession.v, proofs/SessionProofs.v, SymbolsProofs.v): what a failed line leaves behind. The refinement `session = one growing program` itself is decided by complete enumeration of short sessions against SemSession.v (see the check), outside the recorded finding class heap_or_function_across_lines. *)
+(* C17 - a retained session behaves like one growing program. Property theorems only (model/Session.v, spec/SemSession.v; proofs/SessionRefine.v, SessionRefineB.v, SessionProofs.v). The refinement is proved for sessions whose lines are in fragment F1 (scalar top-level code, any number of statements per line), failing lines of every kind included; heap values and functions across lines are the recorded finding D24ab, declarations standing after the point where a line failed at run time the recorded finding D29 (its exclusion `decls_done` is shown necessary by a counterexample). Outside F1 the refinement is decided by complete enumeration of short sessions against SemSession.v. *)
 From NL.Model Require Import Session.
-From NL.Spec Require Import ScopeSpec.
-From NL.Proofs Require SymbolsProofs SessionProofs.
+From NL.Spec Require Import ScopeSpec Sem SemSession Fragment.
+From NL.Proofs Require SymbolsProofs SessionProofs SessionRefine SessionRefineB.
 Open Scope Z_scope.
+
+(* THE property on fragment F1: line by line, what the retained compiler + machine produce is what the session MEANS under the definitional semantics with one carried environment - values, error kinds, no output - with one budget for all lines *)
+Theorem session_refines_program_F1 : forall (u : unicode) (orc : oracle) (fuel : nat) (srcs : list text) (asts : list block), Forall2 (fun (src : text) (a : block) => parse u (parse_float orc) src = Ok a) srcs asts -> SessionRefineB.session_hyps orc fuel compiler_new sem_session_new asts -> exists N : nat, forall budget : nat, (N <= budget)%nat -> SessionRefineB.lines_corr asts (run_session u orc budget session_new srcs) (SessionRefineB.sem_session_run orc fuel sem_session_new asts).
+Proof. exact SessionRefineB.session_refines_program_F1. Qed.
+
+(* one line: accepted and run, rejected by the front end (both sides keep their state), or failing at run time after some assignments (exactly the completed effects persist on both sides); the simulation relation is re-established *)
+Theorem line_refines : forall (u : unicode) (orc : oracle) (fuel : nat) (s : session) (sem : sem_session) (src : text) (ast : block), SessionRefine.SRel s sem -> parse u (parse_float orc) src = Ok ast -> in_F1 ast = true -> (size_block ast <= fuel)%nat -> snd (sem_line' orc fuel sem ast) <> LFuel -> snd (compile_ast ast (ss_compiler s)) <> Err ESyntaxError -> SessionRefine.decls_done orc fuel sem ast -> exists (n : nat) (s' : session) (o : line_obs), (forall budget : nat, (n <= budget)%nat -> run_line u orc budget s src = (s', o)) /\ SessionRefine.SRel s' (fst (sem_line' orc fuel sem ast)) /\ SessionRefine.obs_corr ast o (snd (sem_line' orc fuel sem ast)) /\ ss_compiler s' = fst (compile_ast ast (ss_compiler s)).
+Proof. exact SessionRefine.line_refines. Qed.
+
+(* a session of lines that all succeed gives the last line the value it has as the last line of the single program made of all lines *)
+Theorem session_equals_single_program : forall (u : unicode) (orc : oracle) (fuel : nat) (srcs : list text) (asts : list block), Forall2 (fun (src : text) (a : block) => parse u (parse_float orc) src = Ok a) srcs asts -> SessionRefineB.session_hyps orc fuel compiler_new sem_session_new asts -> (forall r : line_result, In r (SessionRefineB.sem_session_run orc fuel sem_session_new asts) -> exists (v : val) (h : heap) (out : text), r = LValue v h out) -> asts <> [] -> ends_expr (last asts []) = true -> last asts [] <> [] -> exists (v : val) (h : heap) (N F : nat), forall budget fuel' : nat, (N <= budget)%nat -> (F <= fuel')%nat -> sem_program orc fuel' (concat asts) = SemValue v h [] /\ (let o := last (run_session u orc budget session_new srcs) (front_obs session_new OutOfFuel) in lo_result o = Ok v /\ lo_out o = []).
+Proof. exact SessionRefineB.session_equals_single_program. Qed.
+
+(* lines that do not parse can be deleted from a session without changing any other observation *)
+Theorem unparsable_lines_ignored : forall (u : unicode) (orc : oracle) (budget : nat) (srcs : list text) (s : session), map snd (filter (fun p : text * line_obs => SessionRefineB.parses u orc (fst p)) (combine srcs (run_session u orc budget s srcs))) = run_session u orc budget s (filter (SessionRefineB.parses u orc) srcs).
+Proof. exact SessionRefineB.unparsable_lines_ignored. Qed.
+
+(* a line rejected at compile time changes neither the machine, the pool, the symbols nor the meaning *)
+Theorem rejected_line_keeps_both_states : forall (u : unicode) (orc : oracle) (fuel budget : nat) (s : session) (sem : sem_session) (src : text) (ast : block) (st' : cstate), SessionRefine.SRel s sem -> parse u (parse_float orc) src = Ok ast -> in_F1 ast = true -> (size_block ast <= fuel)%nat -> compile_ast ast (ss_compiler s) = (st', Err EReferenceError) -> let s' := fst (run_line u orc budget s src) in ss_vm s' = ss_vm s /\ ss_pool s' = ss_pool s /\ c_symbols (ss_compiler s') = c_symbols (ss_compiler s) /\ c_constants (ss_compiler s') = c_constants (ss_compiler s) /\ c_code (ss_compiler s') = [] /\ c_loops (ss_compiler s') = [] /\ sem_line' orc fuel sem ast = (sem, LRejected EReferenceError).
+Proof. exact SessionRefine.rejected_line_keeps_both_states. Qed.
+
+(* under the relation, a name resolves in the compiler iff it is bound in the session's environment, and its slot holds the cell's value *)
+Theorem SRel_sees : forall (s : session) (sem : sem_session) (x : text), SessionRefine.SRel s sem -> match resolve (c_symbols (ss_compiler s)) x with | Some sy => s_scope sy = SGlobal /\ (exists cell : positive, d_lookup (sm_dyn sem) x = Some cell /\ get_cell cell (sm_state sem) = nth (s_index sy) (v_globals (ss_vm s)) VNull) | None => d_lookup (sm_dyn sem) x = None end.
+Proof. exact SessionRefineB.SRel_sees. Qed.
 
 (* a compile that fails at ANY statement position leaves no half-finished code, no entered loop, no new constant index, and the symbol table rolled back *)
 Theorem failed_compile_harmless : forall (ast : block) (st st' : cstate) (k : errkind), compile_ast ast st = (st', Err k) -> c_code st' = [] /\ c_last st' = None /\ c_loops st' = [] /\ c_constants st' = c_constants st /\ c_symbols st' = rollback (c_symbols st) (checkpoint (c_symbols st)).
@@ -33,6 +57,12 @@ Theorem successful_compile_clean : forall (ast : block) (st st' : cstate) (bc : 
 Proof. exact SessionProofs.successful_compile_clean. Qed.
 
 
+Print Assumptions session_refines_program_F1.
+Print Assumptions line_refines.
+Print Assumptions session_equals_single_program.
+Print Assumptions unparsable_lines_ignored.
+Print Assumptions rejected_line_keeps_both_states.
+Print Assumptions SRel_sees.
 Print Assumptions failed_compile_harmless.
 Print Assumptions failed_compile_restores_names.
 Print Assumptions rollback_after_open_body.
